@@ -217,7 +217,7 @@ func (d *driver) runReadChecks(r *hx.Rand, n int) {
 		dm := hx.Pick(ri, damages)
 		unchanged := ri.Chance(1, 12)
 		for tries := 0; tries < 12; tries++ {
-			gd := genDef(ri.Fork(fmt.Sprint("def", tries)), 6)
+			gd := asCurrent(genDef(ri.Fork(fmt.Sprint("def", tries)), 6))
 			// through JSON so that the tree holds plain JSON values only
 			b0, _ := json.Marshal(gd.Flow)
 			v, _ := decodeGeneric(b0)
